@@ -2,7 +2,7 @@
 From Coq Require Import String Ascii List Bool ZArith NArith.
 From NRI Require Import Model.Proto Model.Schema Run.Common.
 Import ListNotations.
-Open Scope N_scope.
+Local Open Scope N_scope.
 
 (* ---- observed bytes: the harness prints them as lists of Init.Byte constructors ([x0a; xff; ...]),
         which coqc parses far faster than string or number literals ---- *)
